@@ -379,6 +379,129 @@ def nested_helper_cases(ctx):
     ctx.count("nested-helper kernels (lookups only inside loops/branches, a name in both constant tables) on two routes under two specs", n)
 
 
+FILLED_POS_SRC = '''
+@tweezer
+def lane(f, k: int):
+    # a one-column lane of a filled grid: x and y index lists differ in length and content
+    return grid.sub_grid(f, [k], [0, 1, 2])
+
+@tweezer{DEC}
+def main(k: int, dx: float, wrong: bool):
+    z = spec.get_static_trap(zone_id="traps")
+    f = filled.vacate(z, [(0, 0), (2, 1), (3, 2)])
+    row = grid.sub_grid(f, [0, 2, 3], [1])
+    action.set_loc(row)
+    action.turn_on(action.ALL, [0])
+    action.move(grid.shift(row, dx, 0.5))
+    action.move(f[1:4, 2])
+    if wrong:
+        action.move(lane(f, k))
+    action.move(filled.fill(z, [(1, 1)])[0:3, k])
+    action.turn_off([0, 2], action.ALL)
+    g = spec.get_static_trap(zone_id="fz")
+    action.set_loc(lane(g, k))
+    action.turn_on([0], [0, 2])
+    action.move(grid.shift(g[k, 0:3], dx, dx))
+    action.move(lane(filled.repeat(g, 2, 1, 10.0, 0.0), k + 2))
+    action.move(grid.scale(lane(filled.vacate(g, [(k, 2)]), k), 2.0, 1.0))
+'''
+
+
+def filled_position_cases(ctx):
+    """AOD positions that are views of FILLED grids with different x and y index lists (a row, a column lane, slices), of a filled zone of
+    the spec, of repeated / scaled / re-vacated filled grids; the reference evaluates the source with the harness's own filled grid
+    (gen/native_filled.py), so the implementation's FilledGrid methods are not part of the expectation; a move from a (3,1) row to a
+    (1,3) lane has to be rejected"""
+    from bloqade.geometry.dialects.grid import Grid
+    from bloqade.shuttle.arch import ArchSpec, Layout
+    from bloqade.shuttle.dialects.filled.types import FilledGrid
+    lay = Layout(static_traps={"traps": Grid.from_positions([0.0, 2.0, 5.0, 9.0], [0.0, 1.0, 3.0]),
+                               "fz": FilledGrid(parent=Grid.from_positions([20.0, 21.0, 23.0], [0.0, 4.0, 5.0]), vacancies=frozenset({(1, 1), (0, 2)}))},
+                 fillable={"traps"}, has_cz={"traps"}, has_local=set())
+    X = ArchSpec(layout=lay)
+    plain = FILLED_POS_SRC.replace("{DEC}", "")
+    n = 0
+    for how in ("traced with the spec", "compiled with arch_spec"):
+        for args in ((0, 0.5, False), (1, 1.25, False), (2, -0.75, False), (1, 0.5, True)):
+            ctx.evaluations += 1
+            n += 1
+            rep = {"filled_positions": True, "how": how, "args": list(args), "src": plain}
+            nat = tc.run_native(plain, "main", args, X)
+            gt = tc.PosTable()
+            ref = tc.ref_trace(nat[1]) if nat[0] == "ok" else None
+            want = tc.path_text(ref, gt) if ref is not None else "ERR"
+            try:
+                if how == "traced with the spec":
+                    st, r = tc.run_impl(kernels.define(plain)["main"], args, X)
+                else:
+                    st, r = tc.run_impl(kernels.define(FILLED_POS_SRC.replace("{DEC}", "(arch_spec=S)"), S=X)["main"], args, ArchSpec())
+            except Exception as e:
+                st, r = "err", f"{type(e).__name__}: {e}"
+            try:
+                got = tc.path_text(tc.abstract_path(r), gt) if st == "ok" else "ERR"
+            except Exception as e:
+                got = "?unrenderable " + str(e)[:80]
+            if nat[0] != "ok" or (want == "ERR") != args[2]:
+                ctx.obligation("the filled-position kernel has the expected reference (a path, or a rejection for the shape-changing move)", False, str(nat)[:300])
+            elif got != want:
+                ctx.fail({"kind": "filled-positions", "how": how, "rejection_expected": args[2]}, rep,
+                         f"AOD positions that are views of filled grids, {how}, args {args}: expected {want[:170]} got {got[:170]}" + (f" ({str(r)[:100]})" if st != "ok" else ""))
+            else:
+                ctx.nt(("filled-positions", how, args))
+    ctx.count("kernels whose AOD positions are rows / lanes / slices of filled grids (native filled-grid reference), two routes", n)
+
+
+KEYWORD_SRC = '''
+@tweezer
+def main(k: int, xs: ilist.IList[int, Any], dx: float, dy: float):
+    z = spec.get_static_trap(zone_id="traps")
+    start = z[0:2, k]
+    action.set_loc(start)
+    action.turn_on(xs, [0])
+    action.move(grid.shift(start, dx, dy))
+    action.move(grid.shift(start, dx + dx, 0.0))
+    action.turn_off(action.ALL, action.ALL)
+'''
+
+
+def keyword_call_cases(ctx):
+    """run_trace(kernel, args, kwargs): the trace is a function of the kernel and the VALUES of its parameters, however the caller splits
+    them into positional and keyword arguments and in whatever order the keywords are written"""
+    from kirin.dialects import ilist
+    S = tweezer_prog.harness_spec()
+    m = kernels.define(KEYWORD_SRC)["main"]
+    names = ["k", "xs", "dx", "dy"]
+    n = 0
+    for vals in ((1, ilist.IList([0, 1]), 5.0, 0.5), (0, ilist.IList([1]), -1.25, 2.0)):
+        nat = tc.run_native(KEYWORD_SRC, "main", vals, S)
+        gt = tc.PosTable()
+        ref = tc.ref_trace(nat[1]) if nat[0] == "ok" else None
+        if ref is None:
+            ctx.obligation("the keyword-call kernel has a reference path", False, str(nat)[:200])
+            continue
+        want = tc.path_text(ref, gt)
+        for npos in (4, 3, 2, 1, 0):
+            kw_names = names[npos:]
+            orders = [kw_names, kw_names[::-1]] + ([kw_names[1:] + kw_names[:1]] if len(kw_names) > 2 else [])
+            for order in orders:
+                kwargs = {nm: vals[names.index(nm)] for nm in order}
+                ctx.evaluations += 1
+                n += 1
+                st, r = tc.run_impl(m, vals[:npos], S, kwargs=kwargs)
+                try:
+                    got = tc.path_text(tc.abstract_path(r), gt) if st == "ok" else "ERR"
+                except Exception as e:
+                    got = "?unrenderable " + str(e)[:80]
+                if got != want:
+                    ctx.fail({"kind": "keyword-call", "positional": npos, "signature_order": order == kw_names},
+                             {"keyword_call": True, "positional": npos, "order": order},
+                             f"run_trace with {npos} positional arguments and keywords written as {order}: expected {want[:150]} got {got[:150]}"
+                             + (f" ({str(r)[:100]})" if st != "ok" else ""))
+                else:
+                    ctx.nt(("keyword-call", npos, tuple(order)))
+    ctx.count("run_trace calls over every positional/keyword split and keyword order", n)
+
+
 def translated_tracer(ctx, who="C01"):
     """ActionTracer's three handlers translated from taskgen.py on every run (harness/gen/tracer_translate.py: symbolic execution of the
     statement lists, fail-closed) and proved to give the outcome of Model.Tracer.istep for every state and statement; the refinement and
@@ -405,6 +528,8 @@ def run(ctx):
     translated_tracer(ctx)
     helper_chain_histories(ctx)
     nested_helper_cases(ctx)
+    filled_position_cases(ctx)
+    keyword_call_cases(ctx)
     ctx.rule = ("random @tweezer kernels from a grammar (straight-line AOD calls, for/if, typed and untyped helper kernels, closures, "
                 "spec lookups, grids from positions/shift/scale/sub-grids/indexing, literal/variable/branch-joined/argument selectors) x "
                 "argument tuples, plus an error stream (AOD before set_loc, shape-changing move, assert, bad lookup/index); "
@@ -455,6 +580,17 @@ def replay(data):
         c = C()
         nested_helper_cases(c)
         return bool(c.fails), (c.fails or ["every nested-helper kernel traces the reference of its spec"])[0][:200]
+    if inp.get("filled_positions") or inp.get("keyword_call"):
+        class C:
+            def __init__(s): s.fails, s.evaluations = [], 0
+            def fail(s, sig, rep, what): s.fails.append(what)
+            def nt(s, *a): pass
+            def count(s, *a): pass
+            def obligation(s, n, ok, log=""):
+                if not ok: s.fails.append(n)
+        c = C()
+        (keyword_call_cases if inp.get("keyword_call") else filled_position_cases)(c)
+        return bool(c.fails), (c.fails or ["every kernel positioned on views of filled grids traces its reference"])[0][:200]
     if "chain_src" in inp:
         class C:
             def __init__(s): s.fails, s.evaluations = [], 0
